@@ -365,7 +365,14 @@ def _elems(root):
     return [e for e in root.iter() if isinstance(e.tag, str)]
 
 
+def _post_seed(rng, env, seed):
+    if seed['method'] == 'POST' and seed['xml']:
+        return seed
+    return rng.choice([s for s in env.seeds if s['method'] == 'POST' and s['role'] == seed['role']])
+
+
 def m_structure(rng, env, seed):
+    seed = _post_seed(rng, env, seed)
     root = _tree(seed)
     els = _elems(root)
     kind = rng.choice(['delete_elem', 'dup_elem', 'rename_elem', 'swap_ns', 'delete_attr', 'rename_attr', 'attr_value', 'text_value',
@@ -530,6 +537,7 @@ DOCTYPE_KINDS = ['internal_entity', 'external_file', 'external_url', 'param_enti
 
 def m_doctype(rng, env, seed, kind=None):
     kind = kind or rng.choice(DOCTYPE_KINDS)
+    seed = _post_seed(rng, env, seed)
     dt, ref = _doctype(kind, env)
     xml = seed['xml']
     m = re.match(rb'\s*<\?xml[^>]*\?>\s*', xml)
@@ -561,6 +569,7 @@ def m_doctype(rng, env, seed, kind=None):
 
 
 def m_encoding(rng, env, seed):
+    seed = _post_seed(rng, env, seed)
     xml = seed['xml']
     kind = rng.choice(['utf16', 'utf16_nodecl', 'latin1', 'invalid_utf8', 'bom', 'wrong_decl', 'utf32', 'nul', 'cp1252_decl', 'ebcdic'])
     m = re.match(rb'\s*<\?xml[^>]*\?>\s*', xml)
@@ -627,7 +636,7 @@ def m_framing(rng, env, seed, kind=None):
     elif kind == 'cl_minus1':
         raw = req([('Content-Length', '-1')], xml)
     elif kind == 'cl_nonnumeric':
-        raw = req([('Content-Length', rng.choice(['abc', '12a', '0x10', '1e3', '１２', '1 2', '1,2', '++1', '']))], xml)
+        raw = req([('Content-Length', rng.choice(['abc', '12a', '0x10', '1e3', '１２'.encode(), '1 2', '1,2', '++1', '']))], xml)
     elif kind == 'cl_empty':
         raw = req([('Content-Length', '')], xml)
     elif kind == 'cl_plus':
@@ -820,7 +829,9 @@ ESCAPE_KEYS = {
     ('_read_dechunk', 'AttributeError'): ('chunk.no_size_line_escapes', 'chunk-size line ends at EOF or is longer than 16 bytes: _read_until returns None -> AttributeError leaves do_POST'),
     ('_read_dechunk', 'ValueError'): ('chunk.negative_size_escapes', 'negative chunk size: rfile.read(negative) -> ValueError leaves do_POST'),
     ('_read_dechunk', 'DechunkError'): ('chunk.dechunk_error_escapes', 'malformed chunk (size not hex / missing CRLF): DechunkError leaves do_POST, no response'),
-    ('read_request_body', 'OverflowError'): ('framing.bad_content_length_escapes', 'absurd Content-Length: OverflowError from rfile.read leaves do_POST, no response'),
+    ('read_request_body', 'OverflowError'): ('framing.huge_content_length_escapes', 'Content-Length is not limited: rfile.read(n) allocates n bytes up front, OverflowError/MemoryError leaves do_POST'),
+    ('read', 'MemoryError'): ('framing.huge_content_length_escapes', 'Content-Length is not limited: rfile.read(n) allocates n bytes up front, OverflowError/MemoryError leaves do_POST'),
+    ('read_request_body', 'MemoryError'): ('framing.huge_content_length_escapes', 'Content-Length is not limited: rfile.read(n) allocates n bytes up front, OverflowError/MemoryError leaves do_POST'),
     ('_read_dechunk', 'MemoryError'): ('chunk.huge_size_escapes', 'chunk size is not limited: rfile.read(size) allocates size bytes up front, MemoryError/OverflowError leaves do_POST'),
     ('_read_dechunk', 'OverflowError'): ('chunk.huge_size_escapes', 'chunk size is not limited: rfile.read(size) allocates size bytes up front, MemoryError/OverflowError leaves do_POST'),
     ('read_request_body', 'ValueError'): ('framing.bad_content_length_escapes', 'non-numeric or negative Content-Length: ValueError leaves do_POST, no response'),
@@ -1007,7 +1018,7 @@ def run_case(env: Env, ctx, role, raw, info, seed_name):
     # ---- (7) XXE: nothing expanded, nothing leaked
     if info.get('doctype'):
         ctx.count('xxe.doctype_requests')
-        blob = b''.join(p.body_plain for p in plain_bodies) + res.out
+        blob = b''.join(p.body_plain for p in plain_bodies)   # (the stdlib echoes a malformed request LINE in its 400 page: not an expansion)
         if CANARY_TEXT in blob or EXPANDED.encode() in blob:
             ctx.witness('xxe.expansion_in_response', 'response contains canary file content / expanded entity text', {**detail, 'response': blob[:600]})
         for t in env.tree_log:
@@ -1169,7 +1180,7 @@ def w_xxe(ctx: core.Ctx, arg):
             return
         ctx.count('xxe.strace_controls_seen', 2)
         for ln in lines:
-            if b'canary' in ln and d.encode() in ln:
+            if any(x in ln for x in (b'canary.txt', b'canary.dtd', b'canary_param.dtd')):
                 ctx.witness('xxe.canary_file_opened', 'the process opened a canary file referenced only from a DOCTYPE of a request', {'strace': ln[:300]})
             if b'connect(' in ln and b'htons(%d)' % CANARY_PORT in ln:
                 ctx.witness('xxe.canary_url_connected', 'the process connected to the canary URL referenced only from a DOCTYPE of a request', {'strace': ln[:300]})
